@@ -814,7 +814,7 @@ def _mixed(o, base, per):
     return False
 
 
-def prop_check(c, out, exempt_mixed=False, exempt_legacy_non_all=False, exempt_unsynced=False):
+def prop_check(c, out, exempt_mixed=False, exempt_legacy_non_all=False, exempt_unsynced=False, exempt_marks=False):
     """The statement, evaluated on the implementation's own answers: a verdict True (and Input.valid True) needs,
     for every input, at least m signatures each valid for a distinct listed key — valid = ECDSA (fastecdsa) over the
     CONSENSUS digest for the hash-type byte the signature carries, computed without the library; an honest history
@@ -889,9 +889,12 @@ def prop_check(c, out, exempt_mixed=False, exempt_legacy_non_all=False, exempt_u
         if _mark(o) == '+' and verdict != 'T':
             if exempt_legacy_non_all and any(inputs[i][0] in LEGACY and not _all_like(h) for i, h in base.items()):
                 continue
+            if exempt_marks:
+                continue
             return ('COMPLETENESS: every input carries at least m signatures by distinct listed keys over the current '
                     'consensus digest (for the hash type they carry) but %s is False (matrix %s)' % (where, mat))
-        if _mark(o) == '-' and verdict != 'F' and not mixed:
+        if _mark(o) == '-' and verdict != 'F' and not mixed and not exempt_marks:
+            # (reached only when the matrix shows enough valid signatures: the mark, not the verdict, is what is off)
             return 'SOUNDNESS: %s is True on a history with fewer than m valid listed signatures (matrix %s)' % (where, mat)
     return None
 
@@ -1002,8 +1005,14 @@ def _thr_above_16(c, io, mo):
 DOMAIN_CLASSES = ('legacy_non_all_hashtype',)
 KNOWN_CLASSES = {
     # the first two recorded classes are completeness failures; a soundness failure is never suppressed by them
-    'dup_point_keys': lambda c, io, mo: _same_point_twice(c) and (prop_check(c, io) or '').startswith('COMPLETENESS'),
-    'resign_keeps_stale': lambda c, io, mo: _resigned(c) and (prop_check(c, io) or '').startswith('COMPLETENESS'),
+    # (exactly that: the ONLY thing wrong with the answers are steps whose '+' / '-' mark - the generator's account of who
+    #  has signed, which takes replace_signatures at its word - is off, the first of them a '+' step that did not verify;
+    #  a verdict the validity matrix does not bear out, or an object / bytes disagreement, anywhere in the same history
+    #  is not hidden behind it)
+    'dup_point_keys': lambda c, io, mo: _same_point_twice(c) and (prop_check(c, io) or '').startswith('COMPLETENESS')
+    and prop_check(c, io, exempt_marks=True) is None,
+    'resign_keeps_stale': lambda c, io, mo: _resigned(c) and (prop_check(c, io) or '').startswith('COMPLETENESS')
+    and prop_check(c, io, exempt_marks=True) is None,
     'legacy_non_all_hashtype': _legacy_non_all,
     # a soundness class: excuses exactly the steps at which Input.hash_type cannot be every checked signature's hash type
     'input_level_hash_type': _mixed_hash_types,
